@@ -94,7 +94,10 @@ class Prop:
             "remove, re-register the same object, recreate the object, operations scripted inside callbacks of the same or "
             "another channel, peer write/consume/fill/drain/half-close/close/reset, single-stepped iterations; exhaustive "
             "operation sequences of small depth on a hung-up descriptor, random histories, bursts of N simultaneously ready "
-            "descriptors around the array sizes 16/32/64; every case under epoll and poll; non-trivial = at least one "
+            "descriptors around the array sizes 16/32/64; removals that move a disabled last entry of PollPoller's array "
+            "followed by updates of the moved channel and registrations in between; a history on which model and "
+            "implementation differ is continued with operations on the channels of the diverging line and judged by the "
+            "oracle alone; every case under epoll and poll; non-trivial = at least one "
             "callback was dispatched; distinct = distinct observation traces")
     trusted_base = [
         "Lean 4.33.0 kernel; axioms allowed: propext, Classical.choice, Quot.sound",
@@ -636,7 +639,7 @@ class Prop:
                 return True
             if mismatch:
                 small = lines
-                if shrink and not os.environ.get("C09_NOSHRINK"):
+                if shrink:
                     def still2(ls, be=be):
                         _, f, mm = self.run_backend(ctx, exes, ls, be)
                         return mm is not None and not f
